@@ -354,7 +354,9 @@ class AsyncFIXConnection:
                 tm = time.time()
 
                 if self._connection_state == ConnectionState.ACTIVE:
-                    if tm - self._message_last_time > self._heartbeat_period - 1:
+                    if tm - self._message_last_time > max(
+                        self._heartbeat_period - 1, self._heartbeat_period / 2
+                    ):
                         if not self._test_req_id:
                             await self.send_test_req()
                         self._message_last_time = tm
